@@ -221,13 +221,31 @@ pub fn history_core<F: Family>(input: &Input, ctx: &mut Ctx, oracles: u8) -> Cas
 
 pub const SUB_H3: Sub = Sub { name: "c04.history.v3", f: case_history::<V3> };
 pub const SUB_H5: Sub = Sub { name: "c04.history.v5", f: case_history::<V5> };
+/// nums = [first byte, remaining length, start, count]: a block of exhaustively enumerated short frames
+fn case_short<F: Family>(input: &Input, ctx: &mut Ctx) -> CaseResult {
+    let n = input.nums();
+    let (first, rl, start, count) = (n[0] as u8, n[1] as usize, n[2], n[3]);
+    for i in start..start + count {
+        let fr = crate::shortframes::frame(first, rl, i);
+        if let Err(v) = decide::<F>(&fr, ctx).map(|c| { if let Some(c) = c { ctx.label(&c); } }) {
+            ctx.refine = Some((if F::FAM == crate::model::Fam::V3 { "c04.frame.v3" } else { "c04.frame.v5" }, Input::Bytes(fr)));
+            return Err(v);
+        }
+    }
+    ctx.more_evals(count.saturating_sub(1));
+    ctx.label_n("short-frames", count);
+    Ok(())
+}
+
+pub const SUB_X3: Sub = Sub { name: "c04.short-frames.v3", f: case_short::<V3> };
+pub const SUB_X5: Sub = Sub { name: "c04.short-frames.v5", f: case_short::<V5> };
 pub const SUB_V3: Sub = Sub { name: "c04.grammar.v3", f: case::<V3> };
 pub const SUB_V5: Sub = Sub { name: "c04.grammar.v5", f: case::<V5> };
 pub const SUB_B3: Sub = Sub { name: "c04.frame.v3", f: case_bytes::<V3> };
 pub const SUB_B5: Sub = Sub { name: "c04.frame.v5", f: case_bytes::<V5> };
 
 pub fn subs() -> Vec<Sub> {
-    vec![SUB_V3, SUB_V5, SUB_B3, SUB_B5, SUB_H3, SUB_H5]
+    vec![SUB_V3, SUB_V5, SUB_B3, SUB_B5, SUB_H3, SUB_H5, SUB_X3, SUB_X5]
 }
 
 /// hand-assembled frames: the defects repaired by 284f652 / 2d36388 and the pinned leniencies
@@ -253,6 +271,12 @@ pub fn vectors(fam: model::Fam) -> Vec<Input> {
 pub fn run(env: &mut Env) -> RunResult {
     env.run_inputs(SUB_B3, &vectors(model::Fam::V3))?;
     env.run_inputs(SUB_B5, &vectors(model::Fam::V5))?;
+    // every frame with a body of 0..=2 bytes and bodies of 3..=4 (thorough: 5) bytes over a reduced alphabet
+    let sb = crate::shortframes::blocks(env.thorough(), env.tier.sel(4usize, 5usize));
+    let kb = sb.len() as u64;
+    let sb2 = sb.clone();
+    env.run_enum(SUB_X3, kb, true, move |i| sb2[i as usize].clone())?;
+    env.run_enum(SUB_X5, kb, true, move |i| sb[i as usize].clone())?;
     let n = env.tier.sel(40_000, 500_000);
     env.run_tapes(SUB_V3, n, 160)?;
     env.run_tapes(SUB_V5, n * 2, 260)?;
